@@ -243,7 +243,8 @@ impl World {
                 }
             }
             OutMode::None | OutMode::Rm3 => Ok(Built::Absent),
-            OutMode::Both => Err(EvalErr::Fail(207)),
+            OutMode::Both | OutMode::LinkBoth => Err(EvalErr::Fail(207)),
+            OutMode::Link => Ok(Built::Bytes(symlink_bytes(&link_dest(&cand.arg1)))),
             OutMode::Direct => Err(EvalErr::Fail(206)),
         }
     }
